@@ -120,7 +120,7 @@ def correspondence(ctx):
         lines = [COQ_HEAD]
         for k, (r, label, idx) in enumerate(checks):
             lines.append(f'Definition m{k} : bool := match find (fun sk => String.eqb (sk_name sk) "{label}") gen_skeletons with '
-                         f"Some sk => forallb (fun a => existsb (Nat.eqb a) (written sk (repeat true (sk_nbits sk)))) {cl([str(a) for a in idx])} "
+                         f"Some sk => forallb (fun a => existsb (Nat.eqb a) (written gen_summaries sk (repeat true (sk_nbits sk)))) {cl([str(a) for a in idx])} "
                          f"| None => true end.")
         lines.append("Definition results : list bool := " + cl([f"m{k}" for k in range(len(checks))]) + ".")
         lines.append("Fixpoint failing_from (i : nat) (l : list bool) : list nat := match l with [] => [] | b :: r => "
@@ -175,8 +175,10 @@ def accessor_key(r):
             return f"C15:CompositeTransform.{m}:member-buffers-changed"
         return f"C15:CompositeTransform.{m}:member-state-changed"
     if "_parameters[params]" in slots:
-        kind = "receiver-parameter-removed" if "-> value" in slots else "receiver-parameter-rebound"
+        kind = "receiver-parameter-removed" if "_parameters[params] kind tensor -> value" in slots else "receiver-parameter-rebound"
         return f"C15:ParametricTransform[Parameter].{m}:{kind}"
+    if "<non-persistent buffers>" in slots or "<state_dict keys>" in slots:
+        return f"C15:SpatialTransform.{m}:receiver-persistent-buffer-set-changed"
     if "written in place" in slots:
         return f"C15:{base}.{m}:receiver-tensor-written-in-place"
     return f"C15:{base}.{m}:receiver-state-changed"
@@ -253,9 +255,10 @@ MANIFEST_ENTRY = {
             "and grid(g) / condition(...) of a transform leaves every previously existing object exactly as it was; data(arg) / unlink() "
             "do so when the parameters are not held in _parameters (_refuted for Parameter-held parameters: __copy__ shares the _parameters "
             "dict); a deep copy shares nothing with its original and, by induction over arbitrary traces, any interleaving of in-place "
-            "edits and rebinding on either side leaves the other side unchanged at every step; (b) may-alias effect skeletons extracted "
-            "from the source of all public functions of deepali.core.functional / deepali.losses.functional and their package callees "
-            "(276 skeletons): no parameter's tensor is written, for all branch vectors, for every function not on the explicit exception list. "
+            "edits and rebinding on either side leaves the other side unchanged at every step; (b) may-alias effect skeletons with interprocedural summaries (result may refer to / function "
+            "may write which parameters), extracted from the source of all public functions of deepali.core.functional / "
+            "deepali.losses.functional and their package callees (273 skeletons): every claimed summary is re-checked in Coq for all "
+            "branch vectors, and no parameter's tensor is written by any function not on the explicit exception list. "
             "Tie: translator unit MutSkeleton (skeletons, copy protocol tables, fingerprints pinned by theorem) + correspondence replaying "
             "random copy / accessor / edit sequences on real objects against the model + runtime sweep (before/after snapshots with tensor "
             "version counters) of every function and every public method of Grid, Cube, Image, ImageBatch, FlowField(s) and 17 transform kinds.",
